@@ -9,7 +9,7 @@ let c18_take n toks =
     match toks with t :: r -> go (n-1) (t :: acc) r | [] -> failwith "short" in
   go n [] toks
 (* fspec -> (function option, remaining tokens) *)
-let c18_parse_fn (ar : Float64.t arith) toks : (Float64.t -> Float64.t) option * string list =
+let rec c18_parse_fn (ar : Float64.t arith) toks : (Float64.t -> Float64.t) option * string list =
   match toks with
   | "NONE" :: r -> (None, r)
   | "POLY" :: k :: r ->
@@ -26,6 +26,13 @@ let c18_parse_fn (ar : Float64.t arith) toks : (Float64.t -> Float64.t) option *
     (Some (c18_tf_pow ar (c18_unhex k) (c18_unhex m) (c18_unhex c)), r)
   | "SHPOW" :: k :: r0 :: p :: r ->
     (Some (c18_tf_shpow ar (c18_unhex k) (c18_unhex r0) (c18_nat (int_of_string p))), r)
+  | "DIV" :: r ->
+    (match c18_parse_fn ar r with
+     | (Some num, r) ->
+       (match c18_parse_fn ar r with
+        | (Some den, r) -> (Some (fun x -> c18_tf_div ar (num x) (den x)), r)
+        | _ -> failwith "bad DIV")
+     | _ -> failwith "bad DIV")
   | "PWT" :: k :: r ->
     let k = int_of_string k in
     let (xs, r) = c18_take k r in
